@@ -23,17 +23,24 @@ package fs
 //@   ensures missing: fs.watchData != nil && result1 != nil ==> fs.watchData[path].state == stateFileMissing
 //@   ensures contents: fs.watchData != nil ==> fs.watchData[path].fileContents == result0
 
-// ModKey: records the key it returns; a path seen for the first time gets the state that matches the outcome
-// (usable key -> compare the key; unusable -> compare contents; error -> compare presence); a path whose
-// contents were already read (stateFileNeedModKey) is upgraded to key comparison; every other recorded state
-// is left alone.
+// ModKey: like ReadFile, it must leave a FILE state behind (on a rebuild whose FS cache hits on the key it is
+// the ONLY call made for the file, so a directory state left by an earlier package-directory probe must be
+// repaired here too). It records the key it returns; a path seen for the first time gets the state that
+// matches the outcome (usable key -> compare the key; unusable -> compare contents; error -> compare
+// presence); a path whose contents were already read (stateFileNeedModKey) is upgraded to key comparison;
+// every other file state is left alone.
 //@ func (*realFS).ModKey
 //@   arith int
 //@   prop C09
+//@   opt scenario modkey_after_dir_probe
 //@   requires fs != nil
+//@   requires fs.watchData != nil && inDom(fs.watchData, path) ==> fs.watchData[path].state != stateDirHasAccessedEntries && fs.watchData[path].state != stateNone && fs.watchData[path].state <= stateFileUnusableModKey
+//@   ensures file-state: fs.watchData != nil ==>
+//@       fs.watchData[path].state == stateFileNeedModKey || fs.watchData[path].state == stateFileHasModKey ||
+//@       fs.watchData[path].state == stateFileUnusableModKey || fs.watchData[path].state == stateFileMissing
 //@   ensures recorded: fs.watchData != nil ==> inDom(fs.watchData, path) && fs.watchData[path].modKey == result0
 //@   ensures first-seen: fs.watchData != nil && !old(inDom(fs.watchData, path)) ==>
 //@       fs.watchData[path].state == (result1 == modKeyUnusable ? stateFileUnusableModKey : (result1 != nil ? stateFileMissing : stateFileHasModKey))
 //@   ensures upgrade: fs.watchData != nil && old(inDom(fs.watchData, path)) && old(fs.watchData[path].state) == stateFileNeedModKey ==> fs.watchData[path].state == stateFileHasModKey
-//@   ensures otherwise-kept: fs.watchData != nil && old(inDom(fs.watchData, path)) && old(fs.watchData[path].state) != stateFileNeedModKey ==> fs.watchData[path].state == old(fs.watchData[path].state)
+//@   ensures file-states-kept: fs.watchData != nil && old(inDom(fs.watchData, path)) && old(fs.watchData[path].state) != stateFileNeedModKey && old(fs.watchData[path].state) != stateDirUnreadable ==> fs.watchData[path].state == old(fs.watchData[path].state)
 //@   ensures contents-kept: fs.watchData != nil ==> fs.watchData[path].fileContents == old(fs.watchData[path].fileContents)
